@@ -16,21 +16,28 @@ parse), FrameRT (frame header, block loop technique, epilogue).
                                   Lemmas/NCountRT.lean) and repeated tables on both sides; TableOK / TablesOK = what a described table must satisfy
   5  seqTail_serialized           tables + sequences stage on what the writer wrote; EntIs / EntMatch = the decoder carries the tables of the
                                   encoder's previous resolved decisions (`BlockEnc.nextTables`)
-  6  litSection_roundtrip         literals section in any of the three modes (raw, RLE, Huffman with direct tree description)
+  6  litSection_roundtrip_treeless   literals section in any of the four modes (raw, RLE, Huffman with direct tree description, TREELESS = the
+                                  Huffman table of an earlier block re-used: `LitRT.literals_roundtrip_treeless`); HufMatch = the decoder carries
+                                  the table of the encoder's `BlockEnc.nextHuf`; litSection_roundtrip = the three modes without a previous table
   7  prepare_serialized           `Block.prepare` on `serializeBlockBody`
   8-9 validFrom_sizes, validFrom_congr, storeAll_pos          what validity of a parse implies (lengths, nbSeq, positive histories)
-  10 block_roundtrip              MAIN: decodeBlock (serializeBlockBody parse) appends the block content; repeat-offset histories and carried
-                                  sequence tables stay in lock step (block_roundtrip_basic: one block on its own, no set_repeat)
-  11 blocks_loop2, decompressFrame_serialized2, frame_roundtrip_compressed    whole frames of raw / RLE / compressed blocks; `Tiles2` threads the
-                                  repeat-offset history AND the previous table decisions
+  10 block_roundtrip_treeless     MAIN: decodeBlock (serializeBlockBody parse) appends the block content; repeat-offset histories, carried
+                                  sequence tables and the carried Huffman table stay in lock step (block_roundtrip: no previous Huffman table
+                                  known, hence no treeless literals; block_roundtrip_basic: one block on its own, no set_repeat either)
+  11 blocks_loopT, decompressFrame_serializedT, frame_roundtrip_compressed_treeless    whole frames of raw / RLE / compressed blocks; `TilesT`
+                                  threads the repeat-offset history, the previous table decisions AND the previous Huffman table;
+                                  blocks_loop2, decompressFrame_serialized2, frame_roundtrip_compressed = the same for `Tiles2` (no treeless literals)
   12 codesOK_predefined           with predefined tables the only hypothesis on codes is `rawOffset + 3 < 2^29`
 
 All four sequence-table modes are covered: `set_basic`, `set_rle`, `set_compressed` (description round trip: `NCountRT.ncount_roundtrip`;
 bit stream: `SeqRT.inverts_build`; the normalised counts are a DECISION, FSE_normalizeCount is not modelled: any distribution that
 `TableOK` accepts) and `set_repeat` (the table of the previous compressed block with sequences OF THE SAME FRAME).
-OUT OF SCOPE (stated, not silently dropped): `set_repeat` of a DICTIONARY's tables in the first block with sequences (the frame theorems
-start with `prev = none`, i.e. the writer is not offered the dictionary's tables: a sound restriction of the encoder's choices),
-FSE-compressed Huffman tree descriptions and treeless literals.
+Literals: raw, RLE, Huffman with a new table in the direct description (`.huffman`) or in the description the whole of
+HUF_writeCTable_wksp writes, FSE-compressed weights when that is smaller (`.huffmanFse`, Lemmas/WeightsRT.lean), and TREELESS
+(`hType = set_repeat`: the table of the last earlier block OF THE SAME FRAME that wrote one).
+OUT OF SCOPE (stated, not silently dropped): `set_repeat` of a DICTIONARY's tables in the first block with sequences and treeless literals
+on a DICTIONARY's Huffman table (the frame theorems start with `prev = none`, `hp = none`, i.e. the writer is not offered the dictionary's
+tables: a sound restriction of the encoder's choices).
 -/
 import ZstdVerif.Model.BlockEnc
 import ZstdVerif.Lemmas.LitRT
@@ -38,6 +45,7 @@ import ZstdVerif.Lemmas.SeqRT
 import ZstdVerif.Lemmas.ExecRT
 import ZstdVerif.Lemmas.FrameRT
 import ZstdVerif.Lemmas.NCountRT
+import ZstdVerif.Lemmas.WeightsRT
 set_option linter.unusedSimpArgs false
 namespace ZstdVerif.BlockRT
 open ZstdVerif ZstdVerif.Gen ZstdVerif.FSE ZstdVerif.SeqEnc ZstdVerif.LitEnc ZstdVerif.BlockEnc ZstdVerif.Rep
@@ -584,11 +592,72 @@ structure HufOK (ws : List Nat) (last log : Nat) (lits : ByteArray) : Prop where
     hufStreams (decide ((symsOf lits).length < 256)) (HufEnc.codesOf (ws.toArray.push last) log) (symsOf lits) = some streams →
     wh.size + streams.size < lits.size
 
-/-- what the literals must satisfy for the chosen mode: nothing for raw; all bytes equal for RLE; `HufOK` for Huffman -/
-def LitOK : LitChoice → ByteArray → Prop
-  | .raw, _ => True
-  | .rle, lits => ∃ b, lits = LitRT.rleBytes lits.size b
-  | .huffman ws last log, lits => HufOK ws last log lits
+/-- hypotheses of the TREELESS literals round trip (`LitRT.literals_roundtrip_treeless`) on the literals, given the table `weights` /
+`log` of the earlier block: every literal has a code in THAT table (HUF_validateCTable), and the stream(s) are smaller than the
+literals (ZSTD_minGain: otherwise ZSTD_compressLiterals emits them raw).  That the weights themselves are acceptable is not asked
+here: it is carried from the block that wrote the table (`HufMatch`). -/
+structure TreelessOK (weights : Array Nat) (log : Nat) (lits : ByteArray) : Prop where
+  syms : ∀ s ∈ symsOf lits, ∃ hs : s < weights.size, 0 < weights[s]
+  gain : ∀ streams, hufStreams (decide ((symsOf lits).length < 256)) (HufEnc.codesOf weights log) (symsOf lits) = some streams →
+    streams.size < lits.size
+
+/-- hypotheses of the Huffman literals round trip when the tree description is the one HUF_writeCTable_wksp writes - FSE-compressed weights
+when that is smaller, else direct (`WeightsRT.literals_roundtrip_compressed_fse`): as `HufOK`, with at most 256 symbols, the side
+conditions on the normalised counts of the weight values (`WeightsRT.WeightsFseOK`), and the gain stated for that description -/
+structure HufFseOK (ws : List Nat) (last log : Nat) (norm : Array Int) (nlog : Nat) (lits : ByteArray) : Prop where
+  ok : HufRT.WeightsOK (ws.toArray.push last) log
+  last_pos : 0 < last
+  log_le : log ≤ 12
+  two_ones : 2 ≤ (ws ++ [last]).count 1
+  ws_ne : 1 ≤ ws.length
+  ws_le : ws.length ≤ 255
+  fse : WeightsRT.WeightsFseOK norm nlog ws
+  syms : ∀ s ∈ symsOf lits, ∃ hs : s < (ws.toArray.push last).size, 0 < (ws.toArray.push last)[s]
+  gain : ∀ wh streams, treeDescr norm nlog ws = some wh →
+    hufStreams (decide ((symsOf lits).length < 256)) (HufEnc.codesOf (ws.toArray.push last) log) (symsOf lits) = some streams →
+    wh.size + streams.size < lits.size
+
+/-- what the literals must satisfy for the chosen mode: nothing for raw; all bytes equal for RLE; `HufOK` for Huffman with a new table
+(`HufFseOK` when its tree description may be FSE-compressed);
+for treeless literals an earlier compressed block of the frame must have written a table (`hp = some ..`, threaded by
+`BlockEnc.nextHuf`) that covers the literals (`TreelessOK`).  With `hp = none` (the default: nothing known about earlier blocks)
+treeless literals are not applicable. -/
+def LitOK (c : LitChoice) (lits : ByteArray) (hp : Option HufTab := none) : Prop :=
+  match c with
+  | .raw => True
+  | .rle => ∃ b, lits = LitRT.rleBytes lits.size b
+  | .huffman ws last log => HufOK ws last log lits
+  | .treeless =>
+    match hp with
+    | some (w, log) => TreelessOK w log lits
+    | none => False
+  | .huffmanFse ws last log norm nlog => HufFseOK ws last log norm nlog lits
+
+/-- the carrier relation between the encoder's `hp : Option HufTab` (`BlockEnc.nextHuf`) and the decoder's entropy state: nothing is
+claimed while no block of the frame has written a Huffman table (`none`; the decoder may hold anything, e.g. a dictionary's table: it
+is never asked for); afterwards the decoder holds the table built from the weights of the last block that wrote one
+(`dctx->HUFptr`, `litEntropy = 1`), and these weights are what HUF_readStats accepted (`WeightsOK`, depth ≤ HUF_TABLELOG_MAX) -/
+def HufMatch (hp : Option HufTab) (ent : Entropy) : Prop :=
+  match hp with
+  | none => True
+  | some (w, log) => HufRT.WeightsOK w log ∧ log ≤ 12 ∧ ent.huf = some (Huf.buildTable ⟨w, log, 0⟩)
+
+theorem HufMatch.of_huf {hp : Option HufTab} {a b : Entropy} (h : HufMatch hp a) (hs : b.huf = a.huf) : HufMatch hp b := by
+  cases hp with
+  | none => trivial
+  | some wl => exact ⟨h.1, h.2.1, by rw [hs]; exact h.2.2⟩
+
+theorem litSection_hp (c : LitChoice) (lits : ByteArray) (hp : Option HufTab) (h : c ≠ .treeless) :
+    litSection c lits hp = litSection c lits := by
+  cases c <;> first | rfl | exact absurd rfl h
+
+theorem litOK_hp {c : LitChoice} {lits : ByteArray} (hp : Option HufTab) (h : LitOK c lits) : c ≠ .treeless ∧ LitOK c lits hp := by
+  cases c with
+  | treeless => exact h.elim
+  | raw => exact ⟨(by intro e; cases e), h⟩
+  | rle => exact ⟨(by intro e; cases e), h⟩
+  | huffman ws last log => exact ⟨(by intro e; cases e), h⟩
+  | huffmanFse ws last log norm nlog => exact ⟨(by intro e; cases e), h⟩
 
 theorem symsOf_length (lits : ByteArray) : (symsOf lits).length = lits.size := by
   unfold symsOf
@@ -608,39 +677,50 @@ theorem basicHeader_size_pos (ty n : Nat) : 0 < (basicHeader ty n).size := by
   repeat' split
   all_goals rw [LitRT.le_size]; omega
 
-/-- **literals section, any mode**: ZSTD_decodeLiteralsBlock reads the section `litSection c lits` back: the literals, exactly the
-section consumed; of the entropy state only the Huffman table may change (`SameFse`: the sequence tables and their validity flag stay) -/
-theorem litSection_roundtrip (c : LitChoice) (lits : ByteArray) (hc : LitOK c lits) (h17 : lits.size ≤ 2 ^ 17)
-    (src : Bytes) (start srcSize : Nat) (ent : Entropy) (bsm dstCap : Nat)
-    (H : Holds src start (litSection c lits)) (hbsm : lits.size ≤ bsm) (hcap : lits.size ≤ dstCap)
-    (hsz : (litSection c lits).size + 1 ≤ srcSize) :
+theorem sameFse_refl (e : Entropy) : SameFse e e := ⟨rfl, rfl, rfl, rfl, rfl, rfl, rfl⟩
+
+/-- **literals section, any mode, treeless included**: ZSTD_decodeLiteralsBlock reads the section `litSection c lits hp` back: the
+literals, exactly the section consumed; of the entropy state only the Huffman table may change (`SameFse`: the sequence tables and their
+validity flag stay), and it stays in lock step with the encoder's (`HufMatch`): `hp` = the table of the last block of the frame that
+wrote one, if any (`BlockEnc.nextHuf`); the decoder carries it at the start (`hm`) and carries `nextHuf hp c lits` afterwards. -/
+theorem litSection_roundtrip_treeless (c : LitChoice) (lits : ByteArray) (hp : Option HufTab) (hc : LitOK c lits hp)
+    (h17 : lits.size ≤ 2 ^ 17) (src : Bytes) (start srcSize : Nat) (ent : Entropy) (bsm dstCap : Nat) (hm : HufMatch hp ent)
+    (H : Holds src start (litSection c lits hp)) (hbsm : lits.size ≤ bsm) (hcap : lits.size ≤ dstCap)
+    (hsz : (litSection c lits hp).size + 1 ≤ srcSize) :
     ∃ lr, Block.decodeLiterals src start srcSize ent bsm dstCap = .ok lr ∧ lr.lits = lits ∧
-      lr.used = (litSection c lits).size ∧ lr.ent.rep = ent.rep ∧ SameFse lr.ent ent := by
+      lr.used = (litSection c lits hp).size ∧ lr.ent.rep = ent.rep ∧ SameFse lr.ent ent ∧ HufMatch (nextHuf hp c lits) lr.ent := by
   have hraw : ∀ (Hr : Holds src start (rawLiterals lits)) (hs : (rawLiterals lits).size + 1 ≤ srcSize),
       ∃ lr, Block.decodeLiterals src start srcSize ent bsm dstCap = .ok lr ∧ lr.lits = lits ∧
-        lr.used = (rawLiterals lits).size ∧ lr.ent.rep = ent.rep ∧ SameFse lr.ent ent := by
+        lr.used = (rawLiterals lits).size ∧ lr.ent.rep = ent.rep ∧ SameFse lr.ent ent ∧ HufMatch hp lr.ent := by
     intro Hr hs
-    have hp : 0 < (rawLiterals lits).size := by
+    have hp0 : 0 < (rawLiterals lits).size := by
       unfold rawLiterals; rw [ByteArray.size_append]; have := basicHeader_size_pos set_basic lits.size; omega
     exact ⟨_, LitRT.literals_roundtrip_raw lits src start srcSize ent bsm dstCap Hr.extract (by omega) hbsm hcap (by omega)
-      (by unfold MIN_CBLOCK_SIZE; omega), rfl, rfl, rfl, ⟨rfl, rfl, rfl, rfl, rfl, rfl, rfl⟩⟩
+      (by unfold MIN_CBLOCK_SIZE; omega), rfl, rfl, rfl, sameFse_refl _, hm⟩
   cases c with
   | raw => exact hraw H hsz
   | rle =>
     obtain ⟨b, hb⟩ := hc
-    simp only [litSection] at H hsz ⊢
+    simp only [litSection, nextHuf] at H hsz ⊢
     generalize lits.size = n at hb h17 hbsm hcap
     subst hb
-    have hp : 0 < (rleLiterals (LitRT.rleBytes n b)).size := by
+    have hp0 : 0 < (rleLiterals (LitRT.rleBytes n b)).size := by
       unfold rleLiterals; rw [ByteArray.size_push]; omega
     exact ⟨_, LitRT.literals_roundtrip_rle n b src start srcSize ent bsm dstCap H.extract (by omega) hbsm hcap (by omega)
-      (by unfold MIN_CBLOCK_SIZE; omega), rfl, rfl, rfl, ⟨rfl, rfl, rfl, rfl, rfl, rfl, rfl⟩⟩
+      (by unfold MIN_CBLOCK_SIZE; omega), rfl, rfl, rfl, sameFse_refl _, hm⟩
   | huffman ws last log =>
+    have hc : HufOK ws last log lits := hc
     simp only [litSection] at H hsz ⊢
     cases hh : hufLiterals (ws.toArray.push last) log (symsOf lits) with
-    | none => rw [hh] at H hsz; exact hraw H hsz
+    | none =>
+      have hnext : nextHuf hp (.huffman ws last log) lits = hp := by
+        simp only [nextHuf, hh, Option.isSome_none, Bool.false_eq_true, if_false]
+      rw [hh] at H hsz; rw [hnext]; exact hraw H hsz
     | some sec =>
+      have hnext : nextHuf hp (.huffman ws last log) lits = some (ws.toArray.push last, log) := by
+        simp only [nextHuf, hh, Option.isSome_some, if_true]
       rw [hh] at H hsz
+      rw [hnext]
       simp only []  at H hsz ⊢
       have hdl : (ws.toArray.push last).toList.dropLast = ws := by simp
       unfold hufLiterals at hh
@@ -660,7 +740,93 @@ theorem litSection_roundtrip (c : LitChoice) (lits : ByteArray) (hc : LitOK c li
           have := LitRT.literals_roundtrip_compressed ws last log hc.ok hc.last_pos hc.log_le hc.two_ones hc.ws_ne
             (decide ((symsOf lits).length < 256)) wh streams (symsOf lits) hwh hst hc.syms src start srcSize ent bsm dstCap H.extract
             (by intro h; have := of_decide_eq_true h; omega) (by omega) (by omega) (by omega) (by omega) (by omega)
-          exact ⟨_, this, litBytes_symsOf lits, rfl, rfl, ⟨rfl, rfl, rfl, rfl, rfl, rfl, rfl⟩⟩
+          exact ⟨_, this, litBytes_symsOf lits, rfl, rfl, ⟨rfl, rfl, rfl, rfl, rfl, rfl, rfl⟩, ⟨hc.ok, hc.log_le, rfl⟩⟩
+  | huffmanFse ws last log norm nlog =>
+    have hc : HufFseOK ws last log norm nlog lits := hc
+    simp only [litSection] at H hsz ⊢
+    cases hh : hufLiteralsFse (ws.toArray.push last) log norm nlog (symsOf lits) with
+    | none =>
+      have hnext : nextHuf hp (.huffmanFse ws last log norm nlog) lits = hp := by
+        simp only [nextHuf, hh, Option.isSome_none, Bool.false_eq_true, if_false]
+      rw [hh] at H hsz; rw [hnext]; exact hraw H hsz
+    | some sec =>
+      have hnext : nextHuf hp (.huffmanFse ws last log norm nlog) lits = some (ws.toArray.push last, log) := by
+        simp only [nextHuf, hh, Option.isSome_some, if_true]
+      rw [hh] at H hsz
+      rw [hnext]
+      simp only []  at H hsz ⊢
+      have hdl : (ws.toArray.push last).toList.dropLast = ws := by simp
+      unfold hufLiteralsFse at hh
+      rw [hdl] at hh
+      simp only [] at hh
+      cases hwh : treeDescr norm nlog ws with
+      | none => rw [hwh] at hh; cases hh
+      | some wh =>
+        cases hst : hufStreams (decide ((symsOf lits).length < 256)) (HufEnc.codesOf (ws.toArray.push last) log) (symsOf lits) with
+        | none => rw [hwh, hst] at hh; cases hh
+        | some streams =>
+          rw [hwh, hst] at hh
+          injection hh with hh
+          subst hh
+          have hg := hc.gain wh streams hwh hst
+          have hlen := symsOf_length lits
+          have hsecsz : (compressedLiterals (decide ((symsOf lits).length < 256)) wh streams (symsOf lits).length).size
+              = lhSize (symsOf lits).length + wh.size + streams.size := by
+            unfold compressedLiterals
+            rw [ByteArray.size_append, ByteArray.size_append, LitRT.compressedHeader_size]
+          have hlh : 3 ≤ lhSize (symsOf lits).length := by unfold lhSize; omega
+          have hpos := LitRT.hufStreams_size_pos hst
+          have := WeightsRT.literals_roundtrip_compressed_fse ws last log hc.ok hc.last_pos hc.log_le hc.two_ones hc.ws_ne hc.ws_le norm nlog
+            hc.fse (decide ((symsOf lits).length < 256)) wh streams (symsOf lits) hwh hst hc.syms src start srcSize ent bsm dstCap H.extract
+            (by intro h; have := of_decide_eq_true h; omega) (by omega) (by omega) (by omega) (by omega) (by omega) (by omega)
+          exact ⟨_, this, litBytes_symsOf lits, rfl, rfl, ⟨rfl, rfl, rfl, rfl, rfl, rfl, rfl⟩, ⟨hc.ok, hc.log_le, rfl⟩⟩
+  | treeless =>
+    cases hp with
+    | none => exact hc.elim
+    | some wl =>
+      obtain ⟨w, log⟩ := wl
+      have hc : TreelessOK w log lits := hc
+      have hm0 := hm
+      obtain ⟨hok, hlog, hhuf⟩ := hm
+      have hnext : nextHuf (some (w, log)) .treeless lits = some (w, log) := rfl
+      rw [hnext]
+      simp only [litSection] at H hsz ⊢
+      cases hh : treelessLiterals w log (symsOf lits) with
+      | none => rw [hh] at H hsz; exact hraw H hsz
+      | some sec =>
+        rw [hh] at H hsz
+        simp only [] at H hsz ⊢
+        unfold treelessLiterals at hh
+        simp only [] at hh
+        cases hst : hufStreams (decide ((symsOf lits).length < 256)) (HufEnc.codesOf w log) (symsOf lits) with
+        | none => rw [hst] at hh; cases hh
+        | some streams =>
+          rw [hst] at hh
+          injection hh with hh
+          subst hh
+          have hg := hc.gain streams hst
+          have hlen := symsOf_length lits
+          have hpos := LitRT.hufStreams_size_pos hst
+          have hsecsz : (compressedLiterals (decide ((symsOf lits).length < 256)) ByteArray.empty streams (symsOf lits).length
+              set_repeat).size = lhSize (symsOf lits).length + streams.size := by
+            rw [LitRT.treeless_eq, ByteArray.size_append, LitRT.compressedHeader_size]
+          have hlh : 3 ≤ lhSize (symsOf lits).length := by unfold lhSize; omega
+          have := LitRT.literals_roundtrip_treeless (decide ((symsOf lits).length < 256)) streams (symsOf lits) w log 0 hok
+            (by omega) src start srcSize ent bsm dstCap hhuf H.extract hc.syms hst
+            (by intro h; have := of_decide_eq_true h; omega) (by omega) (by omega) (by omega) (by omega) (by omega) (by omega)
+          exact ⟨_, this, litBytes_symsOf lits, rfl, rfl, ⟨rfl, rfl, rfl, rfl, rfl, rfl, rfl⟩, ⟨hok, hlog, rfl⟩⟩
+
+/-- **literals section, any of the modes raw, RLE, Huffman with direct tree description** (`litSection_roundtrip_treeless` with nothing
+known about earlier blocks: `hp = none`) -/
+theorem litSection_roundtrip (c : LitChoice) (lits : ByteArray) (hc : LitOK c lits) (h17 : lits.size ≤ 2 ^ 17)
+    (src : Bytes) (start srcSize : Nat) (ent : Entropy) (bsm dstCap : Nat)
+    (H : Holds src start (litSection c lits)) (hbsm : lits.size ≤ bsm) (hcap : lits.size ≤ dstCap)
+    (hsz : (litSection c lits).size + 1 ≤ srcSize) :
+    ∃ lr, Block.decodeLiterals src start srcSize ent bsm dstCap = .ok lr ∧ lr.lits = lits ∧
+      lr.used = (litSection c lits).size ∧ lr.ent.rep = ent.rep ∧ SameFse lr.ent ent := by
+  obtain ⟨lr, h1, h2, h3, h4, h5, -⟩ := litSection_roundtrip_treeless c lits none hc h17 src start srcSize ent bsm dstCap trivial H hbsm
+    hcap hsz
+  exact ⟨lr, h1, h2, h3, h4, h5⟩
 
 /-! ### 7. `Block.prepare` on a serialized block body -/
 
@@ -681,7 +847,7 @@ theorem nextTables_ne (pt : Option Tables) (t : Tables) (seqs : List SeqIn) (hne
   | nil => exact absurd rfl hne
   | cons a l => rfl
 
-/-- **prepare_serialized**.  On the body that ZSTD_entropyCompressSeqStore_internal writes for the literals `lits` and the seqStore
+/-- **prepare_serialized_treeless**.  On the body that ZSTD_entropyCompressSeqStore_internal writes for the literals `lits` and the seqStore
 entries `seqs` (`serializeBlockBody`; tables predefined, RLE, described by FSE_writeNCount, or repeated from the previous block with
 sequences), the first half of ZSTD_decompressBlock_internal (`Block.prepare`)
 succeeds and hands out: the literals; the sequences with `(ll, ml, ofValue) = (litLength, mlBase + 3, offBase)` and offsets resolved
@@ -691,7 +857,63 @@ room; `seqs.length < LONGNBSEQ + 65536` is what the nbSeq field can hold.  On th
 block with sequences, if any (`BlockEnc.nextTables`), and the decoder carries their tables (`EntMatch pt ent`); `set_repeat` needs such a
 block (`hrp`); the resolved decisions are acceptable (`TablesOK`) and can express the codes of `seqs` (`CodesOK`).  Afterwards the
 decoder carries the tables of `nextTables pt t seqs`: the next block starts in lock step.  With `pt = none` and no `set_repeat` in `t`
-(`resolve_of_not_usesRepeat`) this is the statement about one block on its own. -/
+(`resolve_of_not_usesRepeat`) this is the statement about one block on its own.  On the Huffman table: `hp` = the table of the last block
+of the frame that wrote one, if any (`BlockEnc.nextHuf`); the decoder carries it (`HufMatch hp ent`); treeless literals need one
+(`LitOK .treeless lits hp`); afterwards the decoder carries `nextHuf hp c lits`. -/
+theorem prepare_serialized_treeless (c : LitChoice) (lits : ByteArray) (t : Tables) (seqs : List SeqIn) (hp : Option HufTab)
+    (hc : LitOK c lits hp) (h17 : lits.size ≤ 2 ^ 17) (hn : seqs.length < LONGNBSEQ + 65536)
+    (hrng : ∀ s ∈ seqs, InRange s) (pt : Option Tables) (hrp : usesRepeat t = true → pt.isSome = true)
+    (hT : TablesOK (Tables.resolve (pt.getD {}) t)) (hok : CodesOK (Tables.resolve (pt.getD {}) t) seqs)
+    (src : Bytes) (start : Nat) (ent : Entropy) (bsm dstCap : Nat) (hent : EntMatch pt ent) (hm : HufMatch hp ent)
+    (H : Holds src start (serializeBlockBody c lits t seqs (pt.getD {}) hp))
+    (hsize : (serializeBlockBody c lits t seqs (pt.getD {}) hp).size ≤ bsm) (hbsm : lits.size ≤ bsm) (hcap : lits.size ≤ dstCap)
+    (hcap0 : seqs ≠ [] → 0 < dstCap) :
+    ∃ p, Block.prepare src start (serializeBlockBody c lits t seqs (pt.getD {}) hp).size ent bsm dstCap = .ok p ∧ p.lits = lits ∧
+      p.seqs.toList = (resolveAll (repOf ent.rep) (seqs.map triIn)).1 ∧ p.streamCheck = .ok () ∧
+      repOf p.ent.rep = (resolveAll (repOf ent.rep) (seqs.map triIn)).2 ∧ p.tr.nbSeq = seqs.length ∧
+      EntMatch (nextTables pt t seqs) p.ent ∧ HufMatch (nextHuf hp c lits) p.ent := by
+  unfold serializeBlockBody at H hsize ⊢
+  have hpos := seqSection_size_pos t seqs (pt.getD {})
+  have hB : (litSection c lits hp ++ seqSection t seqs (pt.getD {})).size = (litSection c lits hp).size + (seqSection t seqs (pt.getD {})).size :=
+    ByteArray.size_append
+  generalize (litSection c lits hp ++ seqSection t seqs (pt.getD {})).size = cSize at hB hsize ⊢
+  obtain ⟨lr, hlit, l1, l2, l3, l4, l5⟩ := litSection_roundtrip_treeless c lits hp hc h17 src start cSize ent bsm dstCap hm H.left hbsm hcap
+    (by omega)
+  have hent2 : EntMatch pt lr.ent := hent.of_same l4
+  have Hs := H.right
+  rw [← l2] at Hs hB
+  by_cases hne : seqs = []
+  · subst hne
+    have hs0 : seqSection t [] (pt.getD {}) = nbSeqHeader 0 := rfl
+    rw [hs0] at Hs hB
+    have h1 : (nbSeqHeader 0).size = 1 := by rw [nbSeqHeader_size]; rfl
+    have hnb := seq_header_roundtrip 0 (by decide) src _ (start + cSize) Hs (by omega)
+    rw [h1] at hnb hB
+    have hend : start + lr.used + 1 = start + cSize := by omega
+    obtain ⟨p, hp1, p1, p2, p3, p4, p5⟩ : ∃ p, seqTail src (start + lr.used + 1) (start + cSize) 0 lr dstCap = .ok p ∧ p.lits = lr.lits ∧
+        p.seqs = #[] ∧ p.streamCheck = .ok () ∧ p.ent = lr.ent ∧ p.tr.nbSeq = 0 := by
+      unfold seqTail
+      simp only [bind, Except.bind, pure, Except.pure, throw, throwThe, MonadExceptOf.throw, BEq.rfl, ↓reduceIte, hend,
+        bne_self_eq_false, Bool.false_eq_true]
+      exact ⟨_, rfl, rfl, rfl, rfl, rfl, rfl⟩
+    exact ⟨p, prepare_of_parts hsize hlit hnb hp1, by rw [p1, l1], by rw [p2]; rfl, p3, by rw [p4, l3]; rfl, p5,
+      by rw [nextTables_nil, p4]; exact hent2, by rw [p4]; exact l5⟩
+  · rw [seqSection_eq t seqs hne (pt.getD {})] at Hs hB
+    rw [ByteArray.size_append] at hB
+    have hnb := seq_header_roundtrip seqs.length hn src _ (start + cSize) Hs.left (by omega)
+    have hrep : usesRepeat t = true → EntIs (pt.getD {}) lr.ent := by
+      intro hu
+      have hs := hrp hu
+      cases pt with
+      | none => cases hs
+      | some p0 => exact hent2
+    obtain ⟨p, hp1, p1, p2, p3, p4, p5, p6, p7⟩ := seqTail_serialized t seqs hne hrng (pt.getD {}) hT hok src _ (start + cSize) lr dstCap
+      (hcap0 hne) hrep Hs.right (by omega)
+    exact ⟨p, prepare_of_parts hsize hlit hnb hp1, by rw [p1, l1], by rw [p2, l3], p3, by rw [p4, SeqRT.repOf_repArr, l3], p6,
+      by rw [nextTables_ne pt t seqs hne]; exact p7, l5.of_huf p5⟩
+
+/-- **prepare_serialized**: `prepare_serialized_treeless` with nothing known about an earlier Huffman table (`hp = none`: literals raw /
+RLE / Huffman with a new table) -/
 theorem prepare_serialized (c : LitChoice) (lits : ByteArray) (t : Tables) (seqs : List SeqIn)
     (hc : LitOK c lits) (h17 : lits.size ≤ 2 ^ 17) (hn : seqs.length < LONGNBSEQ + 65536)
     (hrng : ∀ s ∈ seqs, InRange s) (pt : Option Tables) (hrp : usesRepeat t = true → pt.isSome = true)
@@ -704,44 +926,9 @@ theorem prepare_serialized (c : LitChoice) (lits : ByteArray) (t : Tables) (seqs
       p.seqs.toList = (resolveAll (repOf ent.rep) (seqs.map triIn)).1 ∧ p.streamCheck = .ok () ∧
       repOf p.ent.rep = (resolveAll (repOf ent.rep) (seqs.map triIn)).2 ∧ p.tr.nbSeq = seqs.length ∧
       EntMatch (nextTables pt t seqs) p.ent := by
-  unfold serializeBlockBody at H hsize ⊢
-  have hpos := seqSection_size_pos t seqs (pt.getD {})
-  have hB : (litSection c lits ++ seqSection t seqs (pt.getD {})).size = (litSection c lits).size + (seqSection t seqs (pt.getD {})).size :=
-    ByteArray.size_append
-  generalize (litSection c lits ++ seqSection t seqs (pt.getD {})).size = cSize at hB hsize ⊢
-  obtain ⟨lr, hlit, l1, l2, l3, l4⟩ := litSection_roundtrip c lits hc h17 src start cSize ent bsm dstCap H.left hbsm hcap (by omega)
-  have hent2 : EntMatch pt lr.ent := hent.of_same l4
-  have Hs := H.right
-  rw [← l2] at Hs hB
-  by_cases hne : seqs = []
-  · subst hne
-    have hs0 : seqSection t [] (pt.getD {}) = nbSeqHeader 0 := rfl
-    rw [hs0] at Hs hB
-    have h1 : (nbSeqHeader 0).size = 1 := by rw [nbSeqHeader_size]; rfl
-    have hnb := seq_header_roundtrip 0 (by decide) src _ (start + cSize) Hs (by omega)
-    rw [h1] at hnb hB
-    have hend : start + lr.used + 1 = start + cSize := by omega
-    obtain ⟨p, hp, p1, p2, p3, p4, p5⟩ : ∃ p, seqTail src (start + lr.used + 1) (start + cSize) 0 lr dstCap = .ok p ∧ p.lits = lr.lits ∧
-        p.seqs = #[] ∧ p.streamCheck = .ok () ∧ p.ent = lr.ent ∧ p.tr.nbSeq = 0 := by
-      unfold seqTail
-      simp only [bind, Except.bind, pure, Except.pure, throw, throwThe, MonadExceptOf.throw, BEq.rfl, ↓reduceIte, hend,
-        bne_self_eq_false, Bool.false_eq_true]
-      exact ⟨_, rfl, rfl, rfl, rfl, rfl, rfl⟩
-    exact ⟨p, prepare_of_parts hsize hlit hnb hp, by rw [p1, l1], by rw [p2]; rfl, p3, by rw [p4, l3]; rfl, p5,
-      by rw [nextTables_nil, p4]; exact hent2⟩
-  · rw [seqSection_eq t seqs hne (pt.getD {})] at Hs hB
-    rw [ByteArray.size_append] at hB
-    have hnb := seq_header_roundtrip seqs.length hn src _ (start + cSize) Hs.left (by omega)
-    have hrep : usesRepeat t = true → EntIs (pt.getD {}) lr.ent := by
-      intro hu
-      have hs := hrp hu
-      cases pt with
-      | none => cases hs
-      | some p0 => exact hent2
-    obtain ⟨p, hp, p1, p2, p3, p4, p5, p6, p7⟩ := seqTail_serialized t seqs hne hrng (pt.getD {}) hT hok src _ (start + cSize) lr dstCap
-      (hcap0 hne) hrep Hs.right (by omega)
-    exact ⟨p, prepare_of_parts hsize hlit hnb hp, by rw [p1, l1], by rw [p2, l3], p3, by rw [p4, SeqRT.repOf_repArr, l3], p6,
-      by rw [nextTables_ne pt t seqs hne]; exact p7⟩
+  obtain ⟨p, h1, h2, h3, h4, h5, h6, h7, -⟩ := prepare_serialized_treeless c lits t seqs none hc h17 hn hrng pt hrp hT hok src start ent bsm
+    dstCap hent trivial H hsize hbsm hcap hcap0
+  exact ⟨p, h1, h2, h3, h4, h5, h6, h7⟩
 
 /-! ### 8. valid parses: sizes, and independence of the `ofValue` field -/
 
@@ -821,7 +1008,7 @@ theorem storeAll_pos (rep : Rep.R) (qs : List SeqRT.RawSeq) (h : RepPos rep) (hq
 /-- the sequence the match finder has in mind, as the executor sees it (`ofValue` plays no role in execution) -/
 def toSeq (q : SeqRT.RawSeq) : Seq := { ll := q.litLength, ml := q.mlBase + 3, offset := q.rawOffset, ofValue := 0 }
 
-/-- **block_roundtrip** (headline of C01 at block level).  Let `x` be the content of a block, `prev` what the current frame has produced
+/-- **block_roundtrip_treeless** (headline of C01 at block level).  Let `x` be the content of a block, `prev` what the current frame has produced
 before it, `pre` the output of earlier frames, `dict` the dictionary content.  For EVERY parse `(lits, raws)` of `x` that is valid over
 the history `dict ++ prev` (`Exec.ValidParse`: literal runs and matches reproduce `x`; matches may overlap themselves and reach into the
 dictionary) - whatever match finder produced it - let `seqsIn` be the seqStore entries ZSTD_finalizeOffBase / ZSTD_updateRep make of
@@ -837,21 +1024,25 @@ offsets fit a U32 (`rawOffset + 3 < 2^32`), the mode decisions are applicable (`
 of `pt` (`EntMatch`), the destination can hold the content.  (Lengths < 2^17 and nbSeq < LONGNBSEQ + 65536 FOLLOW from validity.)
 For `pt = none` and `t` built from `.predefined` / `.rle` this is, word for word, the earlier statement (then `Tables.resolve _ t = t`:
 `resolve_of_not_usesRepeat`, `TablesOK t` and `EntMatch none ent` hold trivially and `serializeBlockBody c lits t seqsIn {}` is the body
-without previous tables). -/
-theorem block_roundtrip (dict pre prev x lits : ByteArray) (raws : List SeqRT.RawSeq) (c : LitChoice) (t : Tables)
-    (src : Bytes) (start : Nat) (ent : Entropy) (bsm cap : Nat) (pt : Option Tables)
+without previous tables).
+TREELESS literals (`c = .treeless`, `hType = set_repeat`): `hp` = the Huffman table of the last block of the frame that wrote one, if any
+(`BlockEnc.nextHuf`); the decoder carries it (`HufMatch hp ent`); `LitOK .treeless lits hp` asks for such a table and that it covers the
+literals; afterwards the decoder carries the table of `nextHuf hp c lits`: the next block starts in lock step on this side too.
+With `hp = none` this is `block_roundtrip` below. -/
+theorem block_roundtrip_treeless (dict pre prev x lits : ByteArray) (raws : List SeqRT.RawSeq) (c : LitChoice) (t : Tables)
+    (src : Bytes) (start : Nat) (ent : Entropy) (bsm cap : Nat) (pt : Option Tables) (hp : Option HufTab)
     (hv : ValidParse dict prev x lits (raws.map toSeq))
     (hx : x.size ≤ bsm) (hb17 : bsm ≤ 2 ^ 17) (hoff : ∀ q ∈ raws, q.rawOffset + 3 < 2 ^ 32)
-    (hrep : RepPos (repOf ent.rep)) (hent : EntMatch pt ent)
-    (hc : LitOK c lits) (hrp : usesRepeat t = true → pt.isSome = true) (hT : TablesOK (Tables.resolve (pt.getD {}) t))
+    (hrep : RepPos (repOf ent.rep)) (hent : EntMatch pt ent) (hm : HufMatch hp ent)
+    (hc : LitOK c lits hp) (hrp : usesRepeat t = true → pt.isSome = true) (hT : TablesOK (Tables.resolve (pt.getD {}) t))
     (hok : CodesOK (Tables.resolve (pt.getD {}) t) (SeqRT.storeAll (repOf ent.rep) raws).1)
-    (H : Holds src start (serializeBlockBody c lits t (SeqRT.storeAll (repOf ent.rep) raws).1 (pt.getD {})))
-    (hsize : (serializeBlockBody c lits t (SeqRT.storeAll (repOf ent.rep) raws).1 (pt.getD {})).size ≤ bsm)
+    (H : Holds src start (serializeBlockBody c lits t (SeqRT.storeAll (repOf ent.rep) raws).1 (pt.getD {}) hp))
+    (hsize : (serializeBlockBody c lits t (SeqRT.storeAll (repOf ent.rep) raws).1 (pt.getD {}) hp).size ≤ bsm)
     (hcap : pre.size + prev.size + x.size ≤ cap) :
-    ∃ ent2 tr, Block.decodeBlock src start (serializeBlockBody c lits t (SeqRT.storeAll (repOf ent.rep) raws).1 (pt.getD {})).size ent dict
-        { out := pre ++ prev, frameStart := pre.size, cap := cap } bsm = .ok (pre ++ prev ++ x, ent2, tr) ∧
+    ∃ ent2 tr, Block.decodeBlock src start (serializeBlockBody c lits t (SeqRT.storeAll (repOf ent.rep) raws).1 (pt.getD {}) hp).size ent
+        dict { out := pre ++ prev, frameStart := pre.size, cap := cap } bsm = .ok (pre ++ prev ++ x, ent2, tr) ∧
       repOf ent2.rep = (SeqRT.storeAll (repOf ent.rep) raws).2 ∧ RepPos (repOf ent2.rep) ∧ tr.nbSeq = raws.length ∧
-      EntMatch (nextTables pt t (SeqRT.storeAll (repOf ent.rep) raws).1) ent2 := by
+      EntMatch (nextTables pt t (SeqRT.storeAll (repOf ent.rep) raws).1) ent2 ∧ HufMatch (nextHuf hp c lits) ent2 := by
   obtain ⟨-, -, v3, v4⟩ := validFrom_sizes dict (prev ++ x) lits _ _ _ hv
   rw [ByteArray.size_append] at v3 v4
   have hml : ∀ s ∈ raws.map toSeq, 3 ≤ s.ml := by
@@ -870,8 +1061,8 @@ theorem block_roundtrip (dict pre prev x lits : ByteArray) (raws : List SeqRT.Ra
   have hrng := sr (fun q h => ⟨(hq q h).1, (hq q h).2.1, (hq q h).2.2.2⟩)
   obtain ⟨t1, t2⟩ := SeqRT.resolveAll_storeAll (repOf ent.rep) raws hrep.1 hrep.2.1 hrep.2.2 (fun q h => (hq q h).2.2.1)
   have hsz : (pre ++ prev).size = pre.size + prev.size := ByteArray.size_append
-  obtain ⟨p, hp, p1, p2, p3, p4, p5, p6⟩ := prepare_serialized c lits t _ hc (by omega) (by rw [sl]; unfold LONGNBSEQ; omega) hrng pt hrp hT hok
-    src start ent bsm (cap - (pre ++ prev).size) hent H hsize (by omega) (by rw [hsz]; omega)
+  obtain ⟨p, hp1, p1, p2, p3, p4, p5, p6, p7⟩ := prepare_serialized_treeless c lits t _ hp hc (by omega) (by rw [sl]; unfold LONGNBSEQ; omega)
+    hrng pt hrp hT hok src start ent bsm (cap - (pre ++ prev).size) hent hm H hsize (by omega) (by rw [hsz]; omega)
     (by
       intro hne
       have : raws ≠ [] := by intro e; rw [e] at hne; exact hne rfl
@@ -882,9 +1073,29 @@ theorem block_roundtrip (dict pre prev x lits : ByteArray) (raws : List SeqRT.Ra
     rw [List.map_map]
     exact t1.symm
   have hexec := Exec.exec_of_validParse_frame dict pre prev x lits _ cap hv2 hcap
-  refine ⟨p.ent, p.tr, ?_, by rw [p4, t2], by rw [p4, t2]; exact storeAll_pos _ _ hrep (fun q h => (hq q h).2.2.1), by rw [p5, sl], p6⟩
+  refine ⟨p.ent, p.tr, ?_, by rw [p4, t2], by rw [p4, t2]; exact storeAll_pos _ _ hrep (fun q h => (hq q h).2.2.1), by rw [p5, sl], p6, p7⟩
   unfold Block.decodeBlock
-  simp only [hp, bind, Except.bind, Block.finish, p1, p2, p3, hexec]
+  simp only [hp1, bind, Except.bind, Block.finish, p1, p2, p3, hexec]
+
+/-- **block_roundtrip**: `block_roundtrip_treeless` with nothing known about an earlier Huffman table (`hp = none`): literals raw / RLE /
+Huffman with a new table (direct tree description); each sequence table predefined / RLE / described / repeated. -/
+theorem block_roundtrip (dict pre prev x lits : ByteArray) (raws : List SeqRT.RawSeq) (c : LitChoice) (t : Tables)
+    (src : Bytes) (start : Nat) (ent : Entropy) (bsm cap : Nat) (pt : Option Tables)
+    (hv : ValidParse dict prev x lits (raws.map toSeq))
+    (hx : x.size ≤ bsm) (hb17 : bsm ≤ 2 ^ 17) (hoff : ∀ q ∈ raws, q.rawOffset + 3 < 2 ^ 32)
+    (hrep : RepPos (repOf ent.rep)) (hent : EntMatch pt ent)
+    (hc : LitOK c lits) (hrp : usesRepeat t = true → pt.isSome = true) (hT : TablesOK (Tables.resolve (pt.getD {}) t))
+    (hok : CodesOK (Tables.resolve (pt.getD {}) t) (SeqRT.storeAll (repOf ent.rep) raws).1)
+    (H : Holds src start (serializeBlockBody c lits t (SeqRT.storeAll (repOf ent.rep) raws).1 (pt.getD {})))
+    (hsize : (serializeBlockBody c lits t (SeqRT.storeAll (repOf ent.rep) raws).1 (pt.getD {})).size ≤ bsm)
+    (hcap : pre.size + prev.size + x.size ≤ cap) :
+    ∃ ent2 tr, Block.decodeBlock src start (serializeBlockBody c lits t (SeqRT.storeAll (repOf ent.rep) raws).1 (pt.getD {})).size ent dict
+        { out := pre ++ prev, frameStart := pre.size, cap := cap } bsm = .ok (pre ++ prev ++ x, ent2, tr) ∧
+      repOf ent2.rep = (SeqRT.storeAll (repOf ent.rep) raws).2 ∧ RepPos (repOf ent2.rep) ∧ tr.nbSeq = raws.length ∧
+      EntMatch (nextTables pt t (SeqRT.storeAll (repOf ent.rep) raws).1) ent2 := by
+  obtain ⟨ent2, tr, h1, h2, h3, h4, h5, -⟩ := block_roundtrip_treeless dict pre prev x lits raws c t src start ent bsm cap pt none hv hx hb17
+    hoff hrep hent trivial hc hrp hT hok H hsize hcap
+  exact ⟨ent2, tr, h1, h2, h3, h4, h5⟩
 
 /-- **block_roundtrip_basic**: a block on its own - no `set_repeat`, no knowledge of earlier blocks (`pt = none`).  This is the
 statement `block_roundtrip` made before `set_compressed` / `set_repeat` were covered (for predefined / RLE tables `TablesOK t` is `True`),
@@ -942,6 +1153,64 @@ def Tiles2 (dc : ByteArray) (bsm : Nat) (x : ByteArray) (bs : List BlockChoice2)
     (serializeBlockBody c lits t (BlockEnc.storeAll rep raws).1 (prev.getD {})).size ≤ bsm ∧
     Tiles2 dc bsm x rest (pos + parseLen lits raws) (BlockEnc.storeAll rep raws).2 (nextTables prev t (BlockEnc.storeAll rep raws).1)
 
+/-- `Tiles2` with TREELESS literals allowed: `hp` = the Huffman table of the last compressed block in front of the block whose
+literals section wrote one (`none`: there is none yet), threaded by `BlockEnc.nextHuf` exactly as `serializeBlocks2` threads it.  A block
+with treeless literals needs such a table, and it must cover its literals (`LitOK c lits hp`); its body is written with that table. -/
+def TilesT (dc : ByteArray) (bsm : Nat) (x : ByteArray) (bs : List BlockChoice2) (pos : Nat) (rep : Rep.R)
+    (prev : Option Tables := none) (hp : Option HufTab := none) : Prop :=
+  match bs with
+  | [] => pos = x.size
+  | .raw n :: rest => pos + n ≤ x.size ∧ n ≤ bsm ∧ TilesT dc bsm x rest (pos + n) rep prev hp
+  | .rle b n :: rest =>
+    pos + n ≤ x.size ∧ n ≤ bsm ∧ x.extract pos (pos + n) = ByteArray.mk (Array.replicate n b) ∧ TilesT dc bsm x rest (pos + n) rep prev hp
+  | .compressed c t lits raws :: rest =>
+    pos + parseLen lits raws ≤ x.size ∧ parseLen lits raws ≤ bsm ∧
+    ValidParse dc (x.extract 0 pos) (x.extract pos (pos + parseLen lits raws)) lits ((raws.map toRT).map toSeq) ∧
+    (∀ q ∈ raws, q.rawOffset + 3 < 2 ^ 32) ∧ LitOK c lits hp ∧
+    (usesRepeat t = true → prev.isSome = true) ∧ TablesOK (Tables.resolve (prev.getD {}) t) ∧
+    CodesOK (Tables.resolve (prev.getD {}) t) (BlockEnc.storeAll rep raws).1 ∧
+    (serializeBlockBody c lits t (BlockEnc.storeAll rep raws).1 (prev.getD {}) hp).size ≤ bsm ∧
+    TilesT dc bsm x rest (pos + parseLen lits raws) (BlockEnc.storeAll rep raws).2 (nextTables prev t (BlockEnc.storeAll rep raws).1)
+      (nextHuf hp c lits)
+
+/-- a tiling without treeless literals (`Tiles2`: every `LitOK` holds with no table known) is a tiling in the wider sense, whatever
+Huffman table the writer carries along -/
+theorem tilesT_of_tiles2 (dc : ByteArray) (bsm : Nat) (x : ByteArray) : ∀ (bs : List BlockChoice2) (pos : Nat) (rep : Rep.R)
+    (prev : Option Tables) (hp : Option HufTab), Tiles2 dc bsm x bs pos rep prev → TilesT dc bsm x bs pos rep prev hp := by
+  intro bs
+  induction bs with
+  | nil => intro _ _ _ _ h; exact h
+  | cons c rest ih =>
+    intro pos rep prev hp h
+    cases c with
+    | raw n => exact ⟨h.1, h.2.1, ih _ _ _ _ h.2.2⟩
+    | rle b n => exact ⟨h.1, h.2.1, h.2.2.1, ih _ _ _ _ h.2.2.2⟩
+    | compressed c t lits raws =>
+      obtain ⟨t1, t2, tv, toff, tlit, trp, ttab, tcodes, tsz, t3⟩ := h
+      obtain ⟨hne, hl⟩ := litOK_hp hp tlit
+      refine ⟨t1, t2, tv, toff, hl, trp, ttab, tcodes, ?_, ih _ _ _ _ t3⟩
+      unfold serializeBlockBody at tsz ⊢
+      rw [litSection_hp c lits hp hne]
+      exact tsz
+
+/-- the writer does not look at the Huffman table it carries along unless a block has treeless literals -/
+theorem serializeBlocks2_hp (dc : ByteArray) (bsm : Nat) (x : ByteArray) : ∀ (bs : List BlockChoice2) (pos : Nat) (rep : Rep.R)
+    (prev : Option Tables) (hp : Option HufTab), Tiles2 dc bsm x bs pos rep prev →
+    serializeBlocks2 x bs pos rep prev hp = serializeBlocks2 x bs pos rep prev := by
+  intro bs
+  induction bs with
+  | nil => intro _ _ _ _ _; rfl
+  | cons c rest ih =>
+    intro pos rep prev hp h
+    cases c with
+    | raw n => simp only [serializeBlocks2]; rw [ih _ _ _ hp h.2.2]
+    | rle b n => simp only [serializeBlocks2]; rw [ih _ _ _ hp h.2.2.2]
+    | compressed c t lits raws =>
+      obtain ⟨-, -, -, -, tlit, -, -, -, -, t3⟩ := h
+      obtain ⟨hne, -⟩ := litOK_hp hp tlit
+      simp only [serializeBlocks2, serializeBlockBody]
+      rw [litSection_hp c lits hp hne, ih _ _ _ (nextHuf hp c lits) t3, ih _ _ _ (nextHuf none c lits) t3]
+
 /-- what one iteration of the block loop of `Frame.decompressFrame` does on a compressed block whose body decodes -/
 def StepCmp (src dc : ByteArray) (fs cap bsm : Nat) (f : Nat → St → R (ForInStep St)) : Prop :=
   ∀ (i ip rem : Nat) (out : ByteArray) (ent : Entropy) (blocks : Array Frame.BlockTrace) (last : Bool) (body out2 : ByteArray)
@@ -952,22 +1221,23 @@ def StepCmp (src dc : ByteArray) (fs cap bsm : Nat) (f : Nat → St → R (ForIn
     ∃ bt : Frame.BlockTrace, bt.hdr.last = last ∧
       f i (ip, rem, out, ent, blocks, none) = .ok (stepOf last (ip + 3 + body.size, rem - 3 - body.size, out2, ent2, blocks.push bt, none))
 
-theorem serializeBlocks2_size_ge (x : ByteArray) (bs : List BlockChoice2) (pos : Nat) (rep : Rep.R) (prev : Option Tables := none) :
-    3 * bs.length ≤ (serializeBlocks2 x bs pos rep prev).size := by
-  induction bs generalizing pos rep prev with
+theorem serializeBlocks2_size_ge (x : ByteArray) (bs : List BlockChoice2) (pos : Nat) (rep : Rep.R) (prev : Option Tables := none)
+    (hp : Option HufTab := none) : 3 * bs.length ≤ (serializeBlocks2 x bs pos rep prev hp).size := by
+  induction bs generalizing pos rep prev hp with
   | nil => simp [serializeBlocks2]
   | cons c rest ih =>
     cases c with
     | raw n =>
-      have := ih (pos + n) rep prev
+      have := ih (pos + n) rep prev hp
       simp only [serializeBlocks2, noCompressBlock, ByteArray.size_append, blockHeader24_size, List.length_cons] at this ⊢
       omega
     | rle b n =>
-      have := ih (pos + n) rep prev
+      have := ih (pos + n) rep prev hp
       simp only [serializeBlocks2, rleCompressBlock, ByteArray.size_append, blockHeader24_size, List.length_cons] at this ⊢
       omega
     | compressed c t lits raws =>
       have := ih (pos + parseLen lits raws) (BlockEnc.storeAll rep raws).2 (nextTables prev t (BlockEnc.storeAll rep raws).1)
+        (nextHuf hp c lits)
       simp only [serializeBlocks2, compressedBlock, ByteArray.size_append, blockHeader24_size, List.length_cons] at this ⊢
       omega
 
@@ -978,25 +1248,26 @@ theorem ext_step (out0 x : ByteArray) (pos n : Nat) :
 /-- the block loop of `Frame.decompressFrame` on serialized raw / RLE / COMPRESSED blocks: it stops at the flagged block with exactly the
 tiled content appended and every input byte of the blocks consumed.  The entropy state is threaded through the blocks; what the
 induction needs of it is the repeat-offset history and the carried sequence tables, both in lock step with the encoder's
-(`block_roundtrip`: `repOf ent.rep = rep`, `EntMatch pt ent`); raw and RLE blocks leave the decoder's entropy state untouched, as they
-leave the encoder's `rep` / `prev`. -/
-theorem blocks_loop2 (src dc x out0 : ByteArray) (cap bsm r : Nat) (f : Nat → St → R (ForInStep St)) (hbsm : bsm ≤ 2 ^ 17)
+(`block_roundtrip_treeless`: `repOf ent.rep = rep`, `EntMatch pt ent`), and the carried Huffman table (`HufMatch hp ent`); raw and RLE
+blocks leave the decoder's entropy state untouched, as they leave the encoder's `rep` / `prev` / `hp`. -/
+theorem blocks_loopT (src dc x out0 : ByteArray) (cap bsm r : Nat) (f : Nat → St → R (ForInStep St)) (hbsm : bsm ≤ 2 ^ 17)
     (hraw : StepRaw src cap bsm f) (hrle : StepRle src cap bsm f) (hcmp : StepCmp src dc out0.size cap bsm f)
     (hcap : out0.size + x.size ≤ cap) :
     ∀ (bs : List BlockChoice2) (l : List Nat) (pos ip rem : Nat) (out : ByteArray) (ent : Entropy) (blocks : Array Frame.BlockTrace)
-      (rep : Rep.R) (pt : Option Tables), out = out0 ++ x.extract 0 pos →
-      bs ≠ [] → bs.length ≤ l.length → Tiles2 dc bsm x bs pos rep pt → repOf ent.rep = rep → RepPos rep → EntMatch pt ent →
-      Holds src ip (serializeBlocks2 x bs pos rep pt) → rem = (serializeBlocks2 x bs pos rep pt).size + r →
+      (rep : Rep.R) (pt : Option Tables) (hp : Option HufTab), out = out0 ++ x.extract 0 pos →
+      bs ≠ [] → bs.length ≤ l.length → TilesT dc bsm x bs pos rep pt hp → repOf ent.rep = rep → RepPos rep → EntMatch pt ent →
+      HufMatch hp ent →
+      Holds src ip (serializeBlocks2 x bs pos rep pt hp) → rem = (serializeBlocks2 x bs pos rep pt hp).size + r →
       ∃ (bl : Array Frame.BlockTrace) (ent2 : Entropy), bl.back?.map (·.hdr.last) = some true ∧
         forIn l ((ip, rem, out, ent, blocks, none) : St) f =
-          .ok (ip + (serializeBlocks2 x bs pos rep pt).size, r, out0 ++ x, ent2, bl, none) := by
+          .ok (ip + (serializeBlocks2 x bs pos rep pt hp).size, r, out0 ++ x, ent2, bl, none) := by
   have hfin : ∀ pos, pos = x.size → out0 ++ x.extract 0 pos = out0 ++ x := by
     intro pos hp; rw [hp, ByteArray.extract_zero_size]
   intro bs
   induction bs with
-  | nil => intro _ _ _ _ _ _ _ _ _ _ h; exact absurd rfl h
+  | nil => intro _ _ _ _ _ _ _ _ _ _ _ h; exact absurd rfl h
   | cons c rest ih =>
-    intro l pos ip rem out ent blocks rep pt hout _ hl ht hre hrp hem hh hrem
+    intro l pos ip rem out ent blocks rep pt hp hout _ hl ht hre hrp hem hhm hh hrem
     subst hout
     cases l with
     | nil => simp at hl
@@ -1022,8 +1293,8 @@ theorem blocks_loop2 (src dc x out0 : ByteArray) (cap bsm r : Nat) (f : Nat → 
           obtain ⟨bt, hbt, hf⟩ := hraw a ip rem (out0 ++ x.extract 0 pos) ent blocks false n _ hh.left hds (by omega) (by omega) t2 (by omega)
           have hr := hh.right
           simp only [ByteArray.size_append, blockHeader24_size, hds] at hr
-          obtain ⟨bl, ent2, hb1, hb2⟩ := ih l2 (pos + n) (ip + (3 + n)) (rem - 3 - n) _ ent (blocks.push bt) rep pt rfl
-            (by simp) hl2 t3 hre hrp hem hr (by omega)
+          obtain ⟨bl, ent2, hb1, hb2⟩ := ih l2 (pos + n) (ip + (3 + n)) (rem - 3 - n) _ ent (blocks.push bt) rep pt hp rfl
+            (by simp) hl2 t3 hre hrp hem hhm hr (by omega)
           refine ⟨bl, ent2, hb1, ?_⟩
           rw [forIn_cons_yield _ _ _ _ _ hf, ext_step]
           rw [show ip + 3 + n = ip + (3 + n) by omega, hb2, Nat.add_assoc]
@@ -1047,8 +1318,8 @@ theorem blocks_loop2 (src dc x out0 : ByteArray) (cap bsm r : Nat) (f : Nat → 
           obtain ⟨bt, hbt, hf⟩ := hrle a ip rem (out0 ++ x.extract 0 pos) ent blocks false n b hh.left (by omega) (by omega) t2 (by omega)
           have hr := hh.right
           simp only [ByteArray.size_append, blockHeader24_size, hos1] at hr
-          obtain ⟨bl, ent2, hb1, hb2⟩ := ih l2 (pos + n) (ip + (3 + 1)) (rem - 3 - 1) _ ent (blocks.push bt) rep pt rfl
-            (by simp) hl2 t3 hre hrp hem hr (by omega)
+          obtain ⟨bl, ent2, hb1, hb2⟩ := ih l2 (pos + n) (ip + (3 + 1)) (rem - 3 - 1) _ ent (blocks.push bt) rep pt hp rfl
+            (by simp) hl2 t3 hre hrp hem hhm hr (by omega)
           refine ⟨bl, ent2, hb1, ?_⟩
           rw [forIn_cons_yield _ _ _ _ _ hf, ← t4, ext_step]
           rw [show ip + 3 + 1 = ip + (3 + 1) by omega, hb2, Nat.add_assoc]
@@ -1063,11 +1334,12 @@ theorem blocks_loop2 (src dc x out0 : ByteArray) (cap bsm r : Nat) (f : Nat → 
         rw [storeAll_toRT, ← hre] at tcodes tsz hh hrem t3 ⊢
         have hbody := hh.left.right
         rw [blockHeader24_size] at hbody
-        obtain ⟨ent2, tr, hdec, hrep2, hpos2, -, hem2⟩ := block_roundtrip dc out0 (x.extract 0 pos) (x.extract pos (pos + parseLen lits raws))
-          lits (raws.map toRT) c t src (ip + 3) ent bsm cap pt tv (by omega) hbsm
+        obtain ⟨ent2, tr, hdec, hrep2, hpos2, -, hem2, hhm2⟩ := block_roundtrip_treeless dc out0 (x.extract 0 pos)
+          (x.extract pos (pos + parseLen lits raws))
+          lits (raws.map toRT) c t src (ip + 3) ent bsm cap pt hp tv (by omega) hbsm
           (by intro q hq; obtain ⟨q2, hq2, rfl⟩ := List.mem_map.1 hq; exact toff q2 hq2)
-          (by rw [hre]; exact hrp) hem tlit trp ttab tcodes hbody tsz (by omega)
-        generalize hB : serializeBlockBody c lits t (SeqRT.storeAll (repOf ent.rep) (raws.map toRT)).1 (pt.getD {}) = body at *
+          (by rw [hre]; exact hrp) hem hhm tlit trp ttab tcodes hbody tsz (by omega)
+        generalize hB : serializeBlockBody c lits t (SeqRT.storeAll (repOf ent.rep) (raws.map toRT)).1 (pt.getD {}) hp = body at *
         rw [ext_step] at hdec
         have hgrow : (out0 ++ x.extract 0 (pos + parseLen lits raws)).size - (out0 ++ x.extract 0 pos).size ≤ bsm := by
           rw [hos, ByteArray.size_append, ByteArray.size_extract]; omega
@@ -1085,10 +1357,25 @@ theorem blocks_loop2 (src dc x out0 : ByteArray) (cap bsm r : Nat) (f : Nat → 
           have hr := hh.right
           simp only [ByteArray.size_append, blockHeader24_size] at hr
           obtain ⟨bl, ent3, hb1, hb2⟩ := ih l2 (pos + parseLen lits raws) (ip + (3 + body.size)) (rem - 3 - body.size) _ ent2
-            (blocks.push bt) _ _ rfl (by simp) hl2 t3 hrep2 (by rw [← hrep2]; exact hpos2) hem2 hr (by omega)
+            (blocks.push bt) _ _ _ rfl (by simp) hl2 t3 hrep2 (by rw [← hrep2]; exact hpos2) hem2 hhm2 hr (by omega)
           refine ⟨bl, ent3, hb1, ?_⟩
           rw [forIn_cons_yield _ _ _ _ _ hf]
           rw [show ip + 3 + body.size = ip + (3 + body.size) by omega, hb2, Nat.add_assoc]
+
+/-- **blocks_loop2**: `blocks_loopT` for tilings without treeless literals (`Tiles2`) -/
+theorem blocks_loop2 (src dc x out0 : ByteArray) (cap bsm r : Nat) (f : Nat → St → R (ForInStep St)) (hbsm : bsm ≤ 2 ^ 17)
+    (hraw : StepRaw src cap bsm f) (hrle : StepRle src cap bsm f) (hcmp : StepCmp src dc out0.size cap bsm f)
+    (hcap : out0.size + x.size ≤ cap) :
+    ∀ (bs : List BlockChoice2) (l : List Nat) (pos ip rem : Nat) (out : ByteArray) (ent : Entropy) (blocks : Array Frame.BlockTrace)
+      (rep : Rep.R) (pt : Option Tables), out = out0 ++ x.extract 0 pos →
+      bs ≠ [] → bs.length ≤ l.length → Tiles2 dc bsm x bs pos rep pt → repOf ent.rep = rep → RepPos rep → EntMatch pt ent →
+      Holds src ip (serializeBlocks2 x bs pos rep pt) → rem = (serializeBlocks2 x bs pos rep pt).size + r →
+      ∃ (bl : Array Frame.BlockTrace) (ent2 : Entropy), bl.back?.map (·.hdr.last) = some true ∧
+        forIn l ((ip, rem, out, ent, blocks, none) : St) f =
+          .ok (ip + (serializeBlocks2 x bs pos rep pt).size, r, out0 ++ x, ent2, bl, none) :=
+  fun bs l pos ip rem out ent blocks rep pt hout hne hl ht hre hrp hem hh hrem =>
+    blocks_loopT src dc x out0 cap bsm r f hbsm hraw hrle hcmp hcap bs l pos ip rem out ent blocks rep pt none hout hne hl
+      (tilesT_of_tiles2 dc bsm x bs pos rep pt none ht) hre hrp hem trivial hh hrem
 
 /-- `Frame.blockHeader` (ZSTD_getcBlockSize) reads back the header of a compressed block: type 2, the body size, the last-block flag -/
 theorem blockHeader_cmp {src : ByteArray} {ip rem n : Nat} {last : Bool} (h : Holds src ip (blockHeader24 last bt_compressed n))
@@ -1124,6 +1411,16 @@ theorem tiles2_effBlocks {dc : ByteArray} {bsm : Nat} {x : ByteArray} {bs : List
     omega
   | cons c rest => exact h
 
+theorem tilesT_effBlocks {dc : ByteArray} {bsm : Nat} {x : ByteArray} {bs : List BlockChoice2} {rep : Rep.R}
+    (h : TilesT dc bsm x bs 0 rep) : TilesT dc bsm x (effBlocks2 bs) 0 rep := by
+  unfold effBlocks2
+  cases bs with
+  | nil =>
+    have : 0 = x.size := h
+    simp only [List.isEmpty_nil, if_true, TilesT]
+    omega
+  | cons c rest => exact h
+
 theorem effBlocks2_ne (bs : List BlockChoice2) : effBlocks2 bs ≠ [] := by
   unfold effBlocks2
   cases bs <;> simp
@@ -1132,11 +1429,12 @@ theorem effBlocks2_ne (bs : List BlockChoice2) : effBlocks2 bs ≠ [] := by
 frame appends exactly the content and consumes exactly the frame.  `dict` may carry content (the parses are valid over it) but its
 repeat-offset history must be the start value the encoder uses (`repStartValue`), as it is without a dictionary; its sequence tables
 are never asked for, because the block list starts with `prev = none`: `set_repeat` is only written after a compressed block with
-sequences of this frame (`Tiles2`). -/
-theorem decompressFrame_serialized2 (a : HArgs) (ha : a.wf) (hnd : a.noDictID = true ∨ a.dictID = 0)
+sequences of this frame, and likewise treeless literals only after a compressed block of this frame whose literals section wrote a
+Huffman table (`TilesT`, started with `prev = none`, `hp = none`). -/
+theorem decompressFrame_serializedT (a : HArgs) (ha : a.wf) (hnd : a.noDictID = true ∨ a.dictID = 0)
     (bs : List BlockChoice2) (x : ByteArray) (hfcs : a.contentSizeFlag = true → a.pledged = x.size) (dict : Frame.Dict)
     (hrep0 : repOf dict.ent.rep = repStart)
-    (ht : Tiles2 dict.content (min (if single a then a.pledged else 2 ^ a.windowLog) ZSTD_BLOCKSIZE_MAX) x bs 0 repStart)
+    (ht : TilesT dict.content (min (if single a then a.pledged else 2 ^ a.windowLog) ZSTD_BLOCKSIZE_MAX) x bs 0 repStart)
     {src : ByteArray} {ip0 : Nat} (r : Nat) (hsrc : Holds src ip0 (serializeFrame2 a bs x))
     (out0 : ByteArray) (cap : Nat) (hcap : out0.size + x.size ≤ cap)
     (o : Frame.Opts) (hml : o.magicless = a.magicless) (hmb : o.maxBlockSize = 0)
@@ -1144,7 +1442,7 @@ theorem decompressFrame_serialized2 (a : HArgs) (ha : a.wf) (hnd : a.noDictID = 
     ∃ tr, Frame.decompressFrame src ip0 ((serializeFrame2 a bs x).size + r) dict out0 cap o =
       .ok (out0 ++ x, (serializeFrame2 a bs x).size, tr) := by
   rw [serializeFrame2_eq] at hsrc ⊢
-  have htl := tiles2_effBlocks ht
+  have htl := tilesT_effBlocks ht
   have hne := effBlocks2_ne bs
   generalize effBlocks2 bs = bs2 at hsrc htl hne ⊢
   obtain ⟨hd, g0, g1, hsk, gfcs, gws, gdid, gck⟩ := FrameRT.getHeader_serialized a ha hsrc
@@ -1171,9 +1469,9 @@ theorem decompressFrame_serialized2 (a : HArgs) (ha : a.wf) (hnd : a.noDictID = 
   have hL : ∃ (bl : Array Frame.BlockTrace) (ent2 : Entropy), bl.back?.map (·.hdr.last) = some true ∧
       L = .ok (ip0 + H + S, C + r, out0 ++ x, ent2, bl, none) := by
     rw [← hloop, Std.Legacy.Range.forIn_eq_forIn_range', ← hSn]
-    refine blocks_loop2 src dict.content x out0 cap hd.blockSizeMax (C + r) _ hbsm ?raw ?rle ?cmp hcap bs2 _ 0 (ip0 + H) _ out0 dict.ent #[]
-      repStart none (by rw [ByteArray.extract_same, ByteArray.append_empty]) hne ?len (by rw [gbsm]; exact htl) hrep0 ⟨by decide, by decide, by decide⟩
-      trivial (by rw [← hHn, ← size_ofList]; exact hsrc.right.left) (by omega)
+    refine blocks_loopT src dict.content x out0 cap hd.blockSizeMax (C + r) _ hbsm ?raw ?rle ?cmp hcap bs2 _ 0 (ip0 + H) _ out0 dict.ent #[]
+      repStart none none (by rw [ByteArray.extract_same, ByteArray.append_empty]) hne ?len (by rw [gbsm]; exact htl) hrep0
+      ⟨by decide, by decide, by decide⟩ trivial trivial (by rw [← hHn, ← size_ofList]; exact hsrc.right.left) (by omega)
     case len => simp only [List.length_range', Std.Legacy.Range.size]; omega
     case raw =>
       intro i ip rem out ent blocks last n data hh hds h1 h2 h3 h4
@@ -1243,6 +1541,20 @@ theorem decompressFrame_serialized2 (a : HArgs) (ha : a.wf) (hnd : a.noDictID = 
       simp only [if_true, this, bne_self_eq_false, Bool.false_eq_true, if_false]
       cases o.ignoreChecksum <;> exact ⟨_, rfl⟩
 
+/-- **decompressFrame_serialized2**: `decompressFrame_serializedT` for tilings without treeless literals (`Tiles2`) -/
+theorem decompressFrame_serialized2 (a : HArgs) (ha : a.wf) (hnd : a.noDictID = true ∨ a.dictID = 0)
+    (bs : List BlockChoice2) (x : ByteArray) (hfcs : a.contentSizeFlag = true → a.pledged = x.size) (dict : Frame.Dict)
+    (hrep0 : repOf dict.ent.rep = repStart)
+    (ht : Tiles2 dict.content (min (if single a then a.pledged else 2 ^ a.windowLog) ZSTD_BLOCKSIZE_MAX) x bs 0 repStart)
+    {src : ByteArray} {ip0 : Nat} (r : Nat) (hsrc : Holds src ip0 (serializeFrame2 a bs x))
+    (out0 : ByteArray) (cap : Nat) (hcap : out0.size + x.size ≤ cap)
+    (o : Frame.Opts) (hml : o.magicless = a.magicless) (hmb : o.maxBlockSize = 0)
+    (hhash : a.checksum = true → XXH64.hashRange (out0 ++ x) out0.size x.size = XXH64.hashRange x 0 x.size) :
+    ∃ tr, Frame.decompressFrame src ip0 ((serializeFrame2 a bs x).size + r) dict out0 cap o =
+      .ok (out0 ++ x, (serializeFrame2 a bs x).size, tr) :=
+  decompressFrame_serializedT a ha hnd bs x hfcs dict hrep0 (tilesT_of_tiles2 _ _ x bs 0 repStart none none ht) r hsrc out0 cap hcap o hml
+    hmb hhash
+
 theorem serializeFrame2_size_ge (a : HArgs) (bs : List BlockChoice2) (x : ByteArray) : 5 ≤ (serializeFrame2 a bs x).size := by
   rw [serializeFrame2_eq]
   have h1 := FrameRT.writeHeader_length_ge a
@@ -1284,24 +1596,37 @@ def FrameOK2 (dc : ByteArray) (a : HArgs) (bs : List BlockChoice2) (x : ByteArra
   a.wf ∧ (a.noDictID = true ∨ a.dictID = 0) ∧ a.magicless = false ∧ (a.contentSizeFlag = true → a.pledged = x.size) ∧
     Tiles2 dc (FrameRT.blockSizeMaxOf a) x bs 0 repStart
 
-/-- **frame_roundtrip_compressed** (C01, whole frames).  For every input `x`, every accepted header-argument tuple, and EVERY list of block
+/-- `FrameOK2` with TREELESS literals allowed (`TilesT`): the tiling starts with the repeat-offset start value, NO previous sequence
+tables and NO previous Huffman table (`prev = none`, `hp = none`): treeless literals only after a compressed block of this frame whose
+literals section wrote a table.  (ZSTD_compress_usingDict may re-use a dictionary's Huffman table in the first block; that choice is not
+offered to the writer - a sound restriction, every frame the writer does produce is covered.) -/
+def FrameOKT (dc : ByteArray) (a : HArgs) (bs : List BlockChoice2) (x : ByteArray) : Prop :=
+  a.wf ∧ (a.noDictID = true ∨ a.dictID = 0) ∧ a.magicless = false ∧ (a.contentSizeFlag = true → a.pledged = x.size) ∧
+    TilesT dc (FrameRT.blockSizeMaxOf a) x bs 0 repStart
+
+theorem frameOKT_of_frameOK2 {dc : ByteArray} {a : HArgs} {bs : List BlockChoice2} {x : ByteArray} (h : FrameOK2 dc a bs x) :
+    FrameOKT dc a bs x :=
+  ⟨h.1, h.2.1, h.2.2.1, h.2.2.2.1, tilesT_of_tiles2 _ _ x bs 0 repStart none none h.2.2.2.2⟩
+
+/-- **frame_roundtrip_compressed_treeless** (C01, whole frames).  For every input `x`, every accepted header-argument tuple, and EVERY list of block
 decisions that tiles `x` - raw blocks, RLE blocks, and compressed blocks carrying ANY valid parse of their stretch (literals raw / RLE /
-Huffman-direct; each sequence table predefined / RLE / described by FSE_writeNCount with ANY acceptable normalised distribution
+Huffman with a new table in the direct description or in HUF_writeCTable_wksp's (FSE-compressed weights when smaller) / TREELESS = Huffman
+with the table of the last earlier block of the frame that wrote one, `hType = set_repeat`; each sequence table predefined / RLE / described by FSE_writeNCount with ANY acceptable normalised distribution
 (`TableOK`) / repeated from the previous compressed block with sequences) - ZSTD_decompress (`Frame.decompressAll`) maps the serialized frame
 (`serializeFrame2`: ZSTD_writeFrameHeader, per block ZSTD_noCompressBlock / ZSTD_rleCompressBlock / block header +
 ZSTD_entropyCompressSeqStore_internal, ZSTD_writeEpilogue) back to `x`, for every destination capacity that can hold `x`.  The decoder may
 have a dictionary loaded whose content the parses refer to, provided its repeat-offset history is the start value (as with no dictionary).
-Not covered: `set_repeat` of a dictionary's sequence tables in the first block with sequences, FSE-compressed Huffman tree descriptions,
-treeless literals. -/
-theorem frame_roundtrip_compressed (a : HArgs) (bs : List BlockChoice2) (x : ByteArray) (dict : Frame.Dict)
-    (hok : FrameOK2 dict.content a bs x) (hrep0 : repOf dict.ent.rep = repStart)
+Not covered: `set_repeat` of a dictionary's sequence tables in the first block with sequences, treeless literals on a DICTIONARY's
+Huffman table. -/
+theorem frame_roundtrip_compressed_treeless (a : HArgs) (bs : List BlockChoice2) (x : ByteArray) (dict : Frame.Dict)
+    (hok : FrameOKT dict.content a bs x) (hrep0 : repOf dict.ent.rep = repStart)
     (cap : Nat) (hcap : x.size ≤ cap) (o : Frame.Opts) (hml : o.magicless = false) (hmb : o.maxBlockSize = 0) :
     ∃ traces, Frame.decompressAll (serializeFrame2 a bs x) dict cap o = .ok (x, traces) := by
   obtain ⟨k1, k2, k3, k4, k5⟩ := hok
   have hh := FrameRT.holds_self (serializeFrame2 a bs x)
   have hmg := frame2_magic hh k3
   have h5 := serializeFrame2_size_ge a bs x
-  obtain ⟨tr, hdf⟩ := decompressFrame_serialized2 a k1 k2 bs x k4 dict hrep0 k5 0 hh ByteArray.empty cap
+  obtain ⟨tr, hdf⟩ := decompressFrame_serializedT a k1 k2 bs x k4 dict hrep0 k5 0 hh ByteArray.empty cap
     (by rw [ByteArray.size_empty]; omega) o (by rw [hml, k3]) hmb (fun _ => by rw [ByteArray.empty_append, ByteArray.size_empty])
   rw [Nat.add_zero, ByteArray.empty_append] at hdf
   unfold Frame.decompressAll
@@ -1329,6 +1654,21 @@ theorem frame_roundtrip_compressed (a : HArgs) (bs : List BlockChoice2) (x : Byt
   subst hL
   simp only [bne_self_eq_false, Bool.false_eq_true, if_false]
   exact ⟨_, rfl⟩
+
+/-- **frame_roundtrip_compressed** (C01, whole frames).  For every input `x`, every accepted header-argument tuple, and EVERY list of block
+decisions that tiles `x` - raw blocks, RLE blocks, and compressed blocks carrying ANY valid parse of their stretch (literals raw / RLE /
+Huffman-direct; each sequence table predefined / RLE / described by FSE_writeNCount with ANY acceptable normalised distribution
+(`TableOK`) / repeated from the previous compressed block with sequences) - ZSTD_decompress (`Frame.decompressAll`) maps the serialized frame
+(`serializeFrame2`: ZSTD_writeFrameHeader, per block ZSTD_noCompressBlock / ZSTD_rleCompressBlock / block header +
+ZSTD_entropyCompressSeqStore_internal, ZSTD_writeEpilogue) back to `x`, for every destination capacity that can hold `x`.  The decoder may
+have a dictionary loaded whose content the parses refer to, provided its repeat-offset history is the start value (as with no dictionary).
+Not covered HERE: `set_repeat` of a dictionary's sequence tables in the first block with sequences, treeless literals (`FrameOK2` does
+not allow them; `frame_roundtrip_compressed_treeless` above does).  (Huffman-direct: also `.huffmanFse`, the FSE-compressed description.) -/
+theorem frame_roundtrip_compressed (a : HArgs) (bs : List BlockChoice2) (x : ByteArray) (dict : Frame.Dict)
+    (hok : FrameOK2 dict.content a bs x) (hrep0 : repOf dict.ent.rep = repStart)
+    (cap : Nat) (hcap : x.size ≤ cap) (o : Frame.Opts) (hml : o.magicless = false) (hmb : o.maxBlockSize = 0) :
+    ∃ traces, Frame.decompressAll (serializeFrame2 a bs x) dict cap o = .ok (x, traces) :=
+  frame_roundtrip_compressed_treeless a bs x dict (frameOKT_of_frameOK2 hok) hrep0 cap hcap o hml hmb
 
 /-! ### 12. the predefined tables need no hypothesis on codes -/
 
@@ -1420,5 +1760,139 @@ theorem demo2_ok : FrameOK2 ByteArray.empty demoArgs2 demoBlocks2 demoX2 := by
 
 example : ∃ tr, Frame.decompressAll (serializeFrame2 demoArgs2 demoBlocks2 demoX2) {} 30 {} = .ok (demoX2, tr) :=
   frame_roundtrip_compressed _ _ _ {} demo2_ok rfl 30 (by decide) {} rfl rfl
+
+/-! ### non-vacuity, TREELESS literals: a frame of two compressed blocks without sequences.  Block 1 writes a Huffman table for its 20
+literals over {0, 1, 2} (weights 2, 1, 1; direct tree description `81 21`), block 2 codes its 12 literals over {0, 1} with THAT table:
+literals header `c3 c0 00` = type 3 (`set_repeat`), one stream, 12 literals in 3 bytes, no tree description.  The bytes below are what
+`zvdriver blockenc` prints for `cframe 10 0 ch:bbb::20;ct:bbb::12 <hex>` (`lit=ht`); the real ZSTD_decompress regenerates the 32 input
+bytes from them (tools/ent_block.py runs this comparison on every frame the model produces). -/
+
+def demoLitsA : ByteArray := ofList [0, 1, 0, 2, 0, 0, 1, 0, 2, 0, 1, 0, 0, 2, 0, 1, 0, 2, 0, 1]
+def demoLitsB : ByteArray := ofList [0, 1, 0, 0, 1, 0, 0, 0, 1, 0, 1, 0]
+def demoX3 : ByteArray := demoLitsA ++ demoLitsB
+def demoBlocks3 : List BlockChoice2 := [.compressed (.huffman [2, 1] 1 2) {} demoLitsA [], .compressed .treeless {} demoLitsB []]
+def demoArgs3 : HArgs := ⟨10, 32, true, 0, false, false, false⟩
+
+example : (serializeFrame2 demoArgs3 demoBlocks3 demoX3).data =
+    #[0x28, 0xb5, 0x2f, 0xfd, 0x20, 0x20, 0x54, 0x00, 0x00, 0x42, 0x81, 0x01, 0x81, 0x21, 0x2c, 0x9b, 0xe5, 0x32, 0x00, 0x3d, 0x00, 0x00,
+      0xc3, 0xc0, 0x00, 0xc9, 0x99, 0x01, 0x00] := by decide +kernel
+
+/-- the table block 2 re-uses is the one block 1 wrote -/
+theorem demo3_next : nextHuf none (.huffman [2, 1] 1 2) demoLitsA = some (#[2, 1, 1], 2) := by decide +kernel
+
+theorem gain_of_check {a b : Option ByteArray} {n : Nat}
+    (h : (a.bind fun wh => b.map fun st => decide (wh.size + st.size < n)) = some true) :
+    ∀ wh st, a = some wh → b = some st → wh.size + st.size < n := by
+  intro wh st ha hb
+  subst ha hb
+  simpa using h
+
+theorem demo3_hufOK : HufOK [2, 1] 1 2 demoLitsA where
+  ok := by decide
+  last_pos := by decide
+  log_le := by decide
+  two_ones := by decide
+  ws_ne := by decide
+  syms := by decide +kernel
+  gain := gain_of_check (by decide +kernel)
+
+theorem demo3_treelessOK : TreelessOK #[2, 1, 1] 2 demoLitsB where
+  syms := by decide +kernel
+  gain := fun st h => by
+    have := gain_of_check (a := some ByteArray.empty) (n := demoLitsB.size)
+      (b := hufStreams (decide ((symsOf demoLitsB).length < 256)) (HufEnc.codesOf #[2, 1, 1] 2) (symsOf demoLitsB)) (by decide +kernel)
+      ByteArray.empty st rfl h
+    simpa using this
+
+theorem demo3_ok : FrameOKT ByteArray.empty demoArgs3 demoBlocks3 demoX3 := by
+  refine ⟨by unfold HArgs.wf; decide, Or.inr rfl, rfl, fun _ => rfl, ?_⟩
+  have hb : FrameRT.blockSizeMaxOf demoArgs3 = 32 := by decide
+  rw [hb]
+  refine ⟨by decide, by decide, by decide +kernel, by decide, demo3_hufOK, by decide, by decide, by decide, by decide +kernel, ?_⟩
+  rw [demo3_next]
+  refine ⟨by decide, by decide, by decide +kernel, by decide, demo3_treelessOK, by decide, by decide, by decide, by decide +kernel, ?_⟩
+  show 0 + parseLen demoLitsA [] + parseLen demoLitsB [] = demoX3.size
+  decide
+
+example : ∃ tr, Frame.decompressAll (serializeFrame2 demoArgs3 demoBlocks3 demoX3) {} 32 {} = .ok (demoX3, tr) :=
+  frame_roundtrip_compressed_treeless _ _ _ {} demo3_ok rfl 32 (by decide) {} rfl rfl
+
+/-! ### non-vacuity, FSE-COMPRESSED TREE DESCRIPTION: one compressed block of 120 literals over 28 symbols (weights `demoWsF ++ [1]`,
+depth 5) and a raw block.  HUF_writeCTable_wksp's FSE form takes 12 bytes (size byte 11; counts of the weight values 0 .. 4 normalised to
+15, 8, 3, 4, 2 at table log 5) where the direct form takes 15; `Huf.readStats` reads it back (`WeightsRT.readStats_fse`). -/
+
+def demoLitsF : ByteArray :=
+  ofList [0, 1, 2, 3, 0, 5, 6, 3, 8, 9, 2, 2, 12, 1, 5, 15, 0, 8, 18, 3, 2, 21, 2, 5, 24, 1, 8, 27, 0, 2, 0, 3, 5, 3, 2, 8, 6, 1,
+    2, 9, 0, 5, 12, 3, 8, 15, 2, 2, 18, 1, 5, 21, 0, 8, 24, 3, 2, 27, 2, 5, 0, 1, 8, 3, 0, 2, 6, 3, 5, 9, 2, 8, 12, 1, 2, 15, 0,
+    5, 18, 3, 8, 21, 2, 2, 24, 1, 5, 27, 0, 8, 0, 3, 2, 3, 2, 5, 6, 1, 8, 9, 0, 2, 12, 3, 5, 15, 2, 8, 18, 1, 2, 21, 0, 5, 24, 3,
+    8, 27, 2, 2]
+def demoWsF : List Nat := [3, 2, 4, 3, 0, 2, 1, 0, 3, 1, 0, 0, 1, 0, 0, 1, 0, 0, 1, 0, 0, 1, 0, 0, 1, 0, 0]
+def demoNormF : Array Int := #[15, 8, 3, 4, 2]
+def demoXF : ByteArray := demoLitsF ++ ofList [1, 2, 3, 4, 5, 6, 7, 8, 9, 10]
+def demoBlocksF : List BlockChoice2 := [.compressed (.huffmanFse demoWsF 1 5 demoNormF 5) {} demoLitsF [], .raw 10]
+def demoArgsF : HArgs := ⟨10, 130, true, 0, false, false, false⟩
+
+example : (treeDescr demoNormF 5 demoWsF).map (·.data) = some #[11, 0, 147, 29, 152, 170, 170, 162, 49, 11, 106, 1] := by decide +kernel
+example : (directWeights demoWsF).map (·.size) = some 15 := by decide +kernel
+
+theorem demoF_fseOK : WeightsRT.WeightsFseOK demoNormF 5 demoWsF where
+  normOK := by decide +kernel
+  log_ge := by decide
+  log_le := by decide
+  last_ne := by decide
+  size_le := by decide
+  spread := by decide +kernel
+  spreadEq := by decide +kernel
+  covers := by decide +kernel
+  not_rle := by decide +kernel
+
+theorem demoF_syms : ∀ s ∈ symsOf demoLitsF, ∃ hs : s < (demoWsF.toArray.push 1).size, 0 < (demoWsF.toArray.push 1)[s] := by
+  decide +kernel
+
+theorem demoF_gain : ∀ wh streams, treeDescr demoNormF 5 demoWsF = some wh →
+    hufStreams (decide ((symsOf demoLitsF).length < 256)) (HufEnc.codesOf (demoWsF.toArray.push 1) 5) (symsOf demoLitsF) = some streams →
+    wh.size + streams.size < demoLitsF.size :=
+  gain_of_check (by decide +kernel)
+
+theorem demoF_hufOK : HufFseOK demoWsF 1 5 demoNormF 5 demoLitsF where
+  ok := by decide +kernel
+  last_pos := by decide
+  log_le := by decide
+  two_ones := by decide
+  ws_ne := by decide
+  ws_le := by decide
+  fse := demoF_fseOK
+  syms := demoF_syms
+  gain := demoF_gain
+
+theorem extract_append_left (a b : ByteArray) : (a ++ b).extract 0 a.size = a := by
+  rw [ByteArray.extract_append]
+  simp
+
+theorem demoF_valid : ValidParse ByteArray.empty (demoXF.extract 0 0) (demoXF.extract 0 (0 + parseLen demoLitsF [])) demoLitsF
+    (([] : List BlockEnc.RawSeq).map toRT |>.map toSeq) := by
+  have h1 : 0 + parseLen demoLitsF [] = demoLitsF.size := by simp [parseLen]
+  have h2 : demoXF.extract 0 (0 + parseLen demoLitsF []) = demoLitsF := by
+    rw [h1]; exact extract_append_left _ _
+  rw [h2, ByteArray.extract_same]
+  show Exec.ValidFrom _ _ _ _ _ []
+  unfold Exec.ValidFrom
+  rw [ByteArray.empty_append, ByteArray.size_empty]
+  exact ⟨Nat.zero_le _, Nat.zero_le _, rfl⟩
+
+theorem demoF_size : (serializeBlockBody (.huffmanFse demoWsF 1 5 demoNormF 5) demoLitsF {} (BlockEnc.storeAll repStart []).1
+    ((none : Option Tables).getD {}) none).size ≤ 130 := by decide +kernel
+
+theorem demoF_ok : FrameOKT ByteArray.empty demoArgsF demoBlocksF demoXF := by
+  refine ⟨by unfold HArgs.wf; decide, Or.inr rfl, rfl, fun _ => rfl, ?_⟩
+  have hb : FrameRT.blockSizeMaxOf demoArgsF = 130 := by decide
+  rw [hb]
+  refine ⟨by decide +kernel, by decide +kernel, demoF_valid, by decide, demoF_hufOK, by decide, by decide, by decide, demoF_size, ?_⟩
+  refine ⟨by decide +kernel, by decide +kernel, ?_⟩
+  show 0 + parseLen demoLitsF [] + 10 = demoXF.size
+  decide +kernel
+
+example : ∃ tr, Frame.decompressAll (serializeFrame2 demoArgsF demoBlocksF demoXF) {} 130 {} = .ok (demoXF, tr) :=
+  frame_roundtrip_compressed_treeless _ _ _ {} demoF_ok rfl 130 (by decide +kernel) {} rfl rfl
 
 end ZstdVerif.BlockRT
